@@ -411,7 +411,7 @@ PROPS = {
                   lambda prog, tier: tokens.run_mps(prog),
                   lambda prog, tier: tokens.run_sections(prog, "mpq_ILLwrite_mps", {"ENDATA"}, print_funcs={"mpq_ILLprint_report": 1}, token_ok=lambda t: t.isupper() and len(t) >= 2),
                   lambda prog, tier: idxclass.run(prog, scope_units=("mps_mpq.c", "rawlp_mpq.c")),
-                  lambda prog, tier: sentinel.run(prog), lambda prog, tier: appendinit.run(prog), lambda prog, tier: appendinit.run_repack(prog), lambda prog, tier: appendinit.run_remap(prog, shared_eff(prog)), lambda prog, tier: rescan.run(prog), lambda prog, tier: defaults.run(prog),
+                  lambda prog, tier: sentinel.run(prog), lambda prog, tier: appendinit.run(prog), lambda prog, tier: appendinit.run_repack(prog), lambda prog, tier: appendinit.run_remap(prog, shared_eff(prog)), lambda prog, tier: fmt.run_args(prog), lambda prog, tier: rescan.run(prog), lambda prog, tier: defaults.run(prog),
                   lambda prog, tier: fullscan.run(prog, ["mpq_ILLwrite_mps"], ("mps_mpq.c",), floor=6),
                   lambda prog, tier: fullscan.run_rowfilter(prog), lambda prog, tier: trunc.run(prog)],
         "technique": "lossy-conversion sink census over writer/reader closures; table agreement (section names, bound mnemonics, row-type "
@@ -547,7 +547,7 @@ PROPS = {
                   lambda prog, tier: condalloc.run(prog),
                   lambda prog, tier: lpstate.run(prog), lambda prog, tier: lpstate.run_internal(prog), lambda prog, tier: lenm1.run(prog), lambda prog, tier: basisdim.run(prog), lambda prog, tier: normlen.run(prog), lambda prog, tier: inval.run_pricedim(prog, shared_eff(prog)), lambda prog, tier: logonly.run(prog), lambda prog, tier: decacc.run(prog), lambda prog, tier: outunset.run(prog),
                   lambda prog, tier: neverset.run(prog),
-                  lambda prog, tier: fmt.run(prog),
+                  lambda prog, tier: fmt.run(prog), lambda prog, tier: fmt.run_args(prog),
                   lambda prog, tier: floatidx.run(prog),
                   lambda prog, tier: allockind.run(prog),
                   lambda prog, tier: intdiv.run(prog),
@@ -707,7 +707,10 @@ _ADD = {
             "explanation": " Shared reader clauses as in C08 (R-RESCAN, R-EXPLICITBND, machine-word sinks); (R-FULLSCAN) the emission loops of the MPS "
                            "writer are exhaustive; (R-ROWFILTER) every record naming a row (RHS, RANGES) is written under the emptiness test that decides "
                            "the row's declaration in ROWS. (R-REMAP) a function that lowers a dimension of the problem rewrites every array that holds numbers "
-                           "of the shrunk space (the SOS sets the writer prints hold structural column numbers)."},
+                           "of the shrunk space (the SOS sets the writer prints hold structural column numbers). (R-FMTARGS) every conversion of a literal "
+                           "format handed to a printf-like routine (the writers' ILLprint_report among them) is given an argument of its category - the "
+                           "exporter records the promoted type of every variadic argument, so a %g given the rational type is seen in the rational "
+                           "instantiation."},
     "C10": {"technique": "; all-paths constant propagation through the '/' case of the exact literal scanner; flag-state dataflow (set-of-tuples) for "
                          "stores into the raw LP's bounds; machine-word sink census with digit-bound discharge",
             "explanation": " (R-RESCAN) the denominator of p/q is scanned from the same state as the numerator; (R-EXPLICITBND) a bound given in the "
